@@ -14,7 +14,7 @@ RULE = ('(policy, peer) pairs evaluated by the real Policy.evaluate on a real SS
         '(kex universe contains the strict-kex marker), all 4 flag combinations, all 16 optional-host-key subsets, size/CA/modulus maps over {absent,1024,2048,3072,4096}, '
         'field pairs jointly over a reduced universe, random large instances over database names, and policy files run through the CLI (-P) against scripted peers; '
         'a case (batch) is non-trivial when it contained at least one passing and one failing pair; distinct = distinct batch specifications')
-REQUIRED = {'cli_multi_entries': 10, 'evaluations': 20000, 'model_pass': 500, 'model_fail': 500, 'metamorphic_checks': 200, 'cli_runs': 20}
+REQUIRED = {'other_file_layouts': 500, 'cli_multi_entries': 10, 'evaluations': 20000, 'model_pass': 500, 'model_fail': 500, 'metamorphic_checks': 200, 'cli_runs': 20}
 ASSUMPTIONS = ['don\'t-care where the statement is silent: compression under subset mode; an empty peer list under subset mode (optional host keys give no exemption under subset mode: the statement mentions them for exact mode only)',
                'sizes are compared only for key types / group-exchange names the peer actually presents (nothing to compare otherwise)']
 MANIFEST = {
@@ -109,23 +109,46 @@ def classify(field):
 
 
 # ----------------------------------------------------------------------------- real objects
+LAYOUT_SEPS = [', ', ',', ' , ', ' ,', '\t,\t', ',   ', '  ,']
+LAYOUT_EQS = [' = ', '=', ' =', '= ', '   =\t']
+
+
+def rand_layout(rng):
+    """Another spelling of the same policy file: the loader trims names, keys and values, ignores blank and comment lines and reads flags case-insensitively."""
+    return {'sep': rng.choice(LAYOUT_SEPS), 'eq': rng.choice(LAYOUT_EQS), 'lead': rng.choice(['', '', ' ', '\t']), 'trail': rng.choice(['', '', ' ', ' \t', '\r']), 'comments': rng.random() < .5,
+            'true': rng.choice(['true', 'True', 'TRUE']), 'shuffle': rng.random() < .5, 'seed': rng.randrange(1 << 30)}
+
+
 def policy_text(pol, name='t'):
-    lines = ['name = "%s"' % name, 'version = 1',
-             'allow_algorithm_subset_and_reordering = %s' % ('true' if pol['subset'] else 'false'),
-             'allow_larger_keys = %s' % ('true' if pol['larger'] else 'false')]
+    lay = pol.get('_layout') or {}
+    sep, eq = lay.get('sep', ', '), lay.get('eq', ' = ')
+
+    def kv(k, v):
+        return lay.get('lead', '') + k + eq + v + lay.get('trail', '')
+    head = [kv('name', '"%s"' % name), kv('version', '1')]
+    lines = [kv('allow_algorithm_subset_and_reordering', lay.get('true', 'true') if pol['subset'] else 'false'),
+             kv('allow_larger_keys', lay.get('true', 'true') if pol['larger'] else 'false')]
     if pol.get('banner') is not None:
-        lines.append('banner = "%s"' % pol['banner'])
+        lines.append(kv('banner', '"%s"' % pol['banner']))
     if pol.get('comp') is not None:
-        lines.append('compressions = ' + ', '.join(pol['comp']))
+        lines.append(kv('compressions', sep.join(pol['comp'])))
     if pol.get('sizes'):
-        lines.append('host_key_sizes = ' + json.dumps(pol['sizes']))
+        lines.append(kv('host_key_sizes', json.dumps(pol['sizes'])))
     if pol.get('dh'):
-        lines.append('dh_modulus_sizes = ' + json.dumps(pol['dh']))
+        lines.append(kv('dh_modulus_sizes', json.dumps(pol['dh'])))
     if pol.get('optional') is not None:
-        lines.append('optional host keys = ' + ', '.join(pol['optional']))
+        lines.append(kv('optional host keys', sep.join(pol['optional'])))
     for f in ('key', 'kex', 'enc', 'mac'):
         if pol.get(f) is not None:
-            lines.append('%s = %s' % (FIELD_POLICY_KEY[f], ', '.join(pol[f])))
+            lines.append(kv(FIELD_POLICY_KEY[f], sep.join(pol[f])))
+    if lay.get('shuffle'):
+        random.Random(lay['seed']).shuffle(lines)
+    lines = head + lines
+    if lay.get('comments'):
+        out = ['# a comment line', '']
+        for l in lines:
+            out += [l, '', '   # indented comment = with, separators']
+        lines = out
     return '\n'.join(lines) + '\n'
 
 
@@ -382,8 +405,12 @@ def run_random(c):
     rng = random.Random(c['seed'])
     names = audit.db_names()
     viol, st = {}, new_stats()
-    for _ in range(c['n']):
+    for i in range(c['n']):
         pol, peer = rand_instance(rng, names)
+        if i % 2:
+            # the same policy spelled differently in the file (separators, blanks, comments, field order, flag case): same fields specified, same verdict
+            pol['_layout'] = rand_layout(rng)
+            st['other_file_layouts'] = st.get('other_file_layouts', 0) + 1
         compare(pol, peer, viol, st)
     return list(viol.values()), st
 
